@@ -335,6 +335,11 @@ pub fn run(seed: u64, thorough: bool, rep: &mut Report) {
         let mut accepted: Vec<BTreeSet<(u32, u32)>> = vec![];
         // what the uninterrupted run has handed to the node by the end of each operation
         let mut sent_upto: Vec<BTreeSet<u32>> = vec![];
+        // how many tracker rows each operation of the uninterrupted run writes: when a block writes several, the
+        // tower goes through them in the order of a hash map, so which of them a crash in the middle has reached
+        // is not determined — those crash points are explored with the monitors only, not compared with the model
+        let mut tracker_writes: Vec<usize> = vec![];
+        let mut ref_prev = w.live.sys.read_db();
         let mut acc_now = BTreeSet::new();
         for op in &ops {
             reset_counters();
@@ -345,6 +350,12 @@ pub fn run(seed: u64, thorough: bool, rep: &mut Report) {
             }
             accepted.push(acc_now.clone());
             sent_upto.push(w.sent.clone());
+            {
+                let now = w.live.sys.read_db();
+                let changed = now.trackers.iter().filter(|(k, v)| ref_prev.trackers.get(*k) != Some(*v)).count();
+                tracker_writes.push(changed);
+                ref_prev = now;
+            }
             let d = w.live.sys.dump();
             rep.line("tw dump", &d);
         }
@@ -437,6 +448,10 @@ pub fn run(seed: u64, thorough: bool, rep: &mut Report) {
                 // a crash at an `after` point happens once that write is durable
                 let budget = points[i][..=j].iter().filter(|(_, d)| *d).count();
                 ARMED.store(j, Ordering::SeqCst);
+                if tracker_writes[i] >= 2 {
+                    rep.uncompared = true;
+                    rep.count("crash-point:order-of-tracker-writes-undetermined");
+                }
                 let r = w.exec(op, rep, Some(budget));
                 ARMED.store(usize::MAX, Ordering::SeqCst);
                 rep.count(&format!("crash-at:{}:{}", points[i][j].0, if points[i][j].1 { "after" } else { "before" }));
